@@ -264,7 +264,9 @@ def _patch_obj(
     #
     # We'll fix these "sparse arrays" after the patch has been applied.
     for part in parts[:-1]:
-        if part not in _obj:
+        # `_obj` is a list when an earlier selection copied the whole array. Its
+        # elements are all there already, and `in` would test values, not indices.
+        if isinstance(_obj, Mapping) and part not in _obj:
             _obj[part] = {}  # type: ignore
         _obj = _obj[part]
 
